@@ -171,4 +171,34 @@ example :
     (s.md 3).map (fun m => match m with | .pos a => a.owner | _ => 0) = some 2 := by
   decide
 
+/-- **merge_no_gain_nary** (farm-staking).  `merge_attributes_from_payments` over the whole payment
+    list: the merged position's principal is the base's plus the sum of the paid amounts, and at
+    EVERY future index `R` its un-rounded entitlement is at most the base's plus the sum of what the
+    paid parts could claim at their own entry indexes — plain list sums over the stored attributes. -/
+theorem merge_no_gain_nary {md : Nat → Option Meta} {pays : List Pay} {base out : Attrs}
+    (h : mergeParts md base pays = some out) (R : Nat) :
+    out.amount = base.amount + (pays.map (·.2)).sum ∧
+    out.amount * (R - out.rps) ≤ base.amount * (R - base.rps) +
+      (pays.map fun p => p.2 * (match posOf md p.1 with | some a => R - a.rps | none => 0)).sum := by
+  have e1 := (mergeParts_amount h).1
+  have e2 := mergeParts_pot md R pays base out h
+  rw [payTot_eq] at e1
+  have s2 : ∀ l : List Pay, payW (potW md R) l =
+      (l.map fun p => p.2 * (match posOf md p.1 with | some a => R - a.rps | none => 0)).sum := by
+    intro l; induction l with
+    | nil => rfl
+    | cons p r ih =>
+      have e : potW md R p.1 = (match posOf md p.1 with | some a => R - a.rps | none => 0) := by
+        unfold potW; cases posOf md p.1 <;> rfl
+      simp only [payW, List.map_cons, List.sum_cons, ih, e, Nat.mul_comm]
+  rw [s2] at e2
+  exact ⟨e1, e2⟩
+
+/-- non-vacuity: two stored positions with different indexes merged into a base -/
+example :
+    let md : Nat → Option Meta := fun n =>
+      if n = 1 then some (.pos ⟨3, 0, 20, 1⟩) else if n = 2 then some (.pos ⟨9, 0, 11, 1⟩) else none
+    (mergeParts md ⟨5, 0, 30, 1⟩ [(1, 20), (2, 11)]).map (·.amount) = some 61 := by
+  decide
+
 end Mx.C07StakingSum
